@@ -5,7 +5,10 @@ from collections import Counter
 
 PROP = "C09"
 # kernels regenerated from /repo's source (tools/py2lean.py) vs the hand model, exhaustive small scope, inside Lean
-TWIN_CHECKS = [{"op": "twin.bpe_exhaustive", "n": 6}]
+TWIN_CHECKS = [{"op": "twin.bpe_exhaustive", "n": 6},
+               # contract_and_count_pairs (encoding part; arrays over {1,2,3} up to length 5 x 4 pairs x 2 count dicts) vs
+               # BPE.contractPairIdx / contract; bpe_encode (strings over {a,b,z} up to length 5 x 6 merge lists) vs BPE.encodeIdx / encode
+               {"op": "twin.bpe_encode_exhaustive", "n": 5}]
 RULE = ("corpora of short strings: all strings over {a,b,c} up to a length bound as singleton corpora, "
         "random pairs/triples of them, random unicode corpora (code points above max_char_code in the "
         "transform inputs), repeated characters; max_vocab_size in {1,2,3,10}; transform inputs = training "
@@ -163,7 +166,19 @@ def model_requests(case, outs):
     if "fit_exc" in o or "crash" in o or "transform_exc" in o:
         return []
     return [{"op": "bpe.encode", "cl": o["code_list_"], "mcc": o["mcc"],
-             "X": [_cp(s) for s in case["X"]] + [_cp(s) for s in o["Xt_all"]]}]
+             "X": [_cp(s) for s in case["X"]] + [_cp(s) for s in o["Xt_all"]]}] + _twin_encode_reqs(o)
+
+
+def _twin_encode_sample(o):
+    """transform inputs whose encoding by the compiled bpe_encode is also computed by the regenerated twin"""
+    from . import twinutil
+    return [i for i, s in enumerate(o.get("Xt_all", [])) if twinutil.bmp(s) and len(s) <= 12][:6] if "trt" in o else []
+
+
+def _twin_encode_reqs(o):
+    from . import twinutil
+    return [twinutil.call("bpe_encode", [o["Xt_all"][i], [tuple(p) for p in o["code_list_"]], o["mcc"]])
+            for i in _twin_encode_sample(o)]
 
 
 def compare(case, outs, resps):
@@ -210,6 +225,12 @@ def compare(case, outs, resps):
         d.append(f"transform(Xt) {o['trt']} != model encode {r['enc'][n:]}")
     if any("ok" not in x for x in r["idx"]) or [x.get("ok") for x in r["idx"]] != r["enc"]:
         d.append("model: index-level encoder disagrees with functional encoder")
+    from . import twinutil
+    for i, tw in zip(_twin_encode_sample(o), resps[1:]):
+        if twinutil.unavailable(tw):
+            continue                                   # twin unavailable: not a disagreement
+        if tw.get("ok") != o["trt"][i]:
+            d.append(f"generated twin bpe_encode({o['Xt_all'][i]!r}) {tw.get('ok', tw.get('err'))} != impl {o['trt'][i]}")
     return d
 
 
